@@ -69,7 +69,7 @@ func gen(t *rapid.T) Case {
 	if cs == 0 {
 		cs = 64
 	}
-	c.Archive = tarmodel.Gen(t, tarmodel.GenOpts{MaxEntries: 14, ChunkSize: cs, Hardlinks: true, Devices: true, Dups: true, Spellings: true, Xattrs: true, RootEntry: true, BigIDs: true})
+	c.Archive = tarmodel.Gen(t, tarmodel.GenOpts{MaxEntries: 14, ChunkSize: cs, Hardlinks: true, Devices: true, Dups: true, Spellings: true, Xattrs: true, RootEntry: true, BigIDs: true, ManyChunks: true})
 	var names []string
 	for _, e := range c.Archive.Entries {
 		if tarmodel.Clean(e.Name) != "" {
